@@ -329,14 +329,17 @@ def sanitizeExtended (cfg : Config) (r : RS) (flags cw ch fuel : Nat) : WP (Opti
     (if flagSet flags 4 then (readHeader r 1 FXMP).bind fun r => skipData r 1 else .done r).bind fun r =>
     .done (some r)
 
+/-- `8 + header.len` of the RIFF chunk the file reader is in (lib.rs:141-146) -/
+def riffLen : CState → Nat
+  | .body _ l _ => l + 8
+  | .padding _ l => l + 8
+  | _ => 8
+
 /-- `sanitize_with_config` (lib.rs:108-177).  `none` = out of fuel. -/
 def sanitizeP (cfg : Config) (fuel : Nat) : WP (Option Unit) :=
   let r : RS := {}
   (readHeader r 0 FRIFF).bind fun r =>
-  let len := match r.l0 with
-    | .body _ l _ => l + 8
-    | .padding _ l => l + 8
-    | _ => 8
+  let len := riffLen r.l0
   (readData r 0 4).bind fun (b, r) =>
   if b ≠ FWEBP then .fail .invalidInput
   else if len > webpMaxFileLen then .fail .invalidInput
